@@ -94,6 +94,11 @@ def is_refuse(v):
     return isinstance(v, dict) and v.get("k") == "refuse"
 
 
+class Inconsistent(Exception):
+    """raised by a HARNESS when the implementation's answers contradict each other (an operand changed, a result aliases its
+    source, ...): an observation in its own right -- never a refusal, so it cannot be mistaken for an expected one"""
+
+
 def guarded(fn):
     """Run fn(); any exception of the implementation is a refusal (the properties say 'refused with an
     error', not which one).  The exception class is kept aside for the evidence."""
@@ -104,6 +109,8 @@ def guarded(fn):
             return canon(fn())
     except (KeyboardInterrupt, SystemExit):
         raise
+    except Inconsistent as e:
+        return {"k": "inconsistent", "msg": str(e)[:300]}
     except MemoryError as e:
         # numpy refusing an absurd allocation request (a wrong size computed from a small input) is behaviour of the
         # implementation; the harness itself running out of memory is not
